@@ -24,7 +24,7 @@ Fixpoint have_range (dir : list ltxrec) (lo : N) (n : nat) : bool :=
   end.
 
 Definition backup_decide (db_exists : bool) (lpos : pos) (dir : list ltxrec) (rpos : pos) : bdecision :=
-  if negb db_exists then BRestore 1
+  if negb db_exists then (if is_zero rpos then BNothing else BRestore 1)   (* unknown to both sides: not even considered *)
   else if is_zero lpos then BNothing
   else if is_zero rpos then BSnapshot
   else if fst lpos <? fst rpos then BRestore 2
@@ -92,12 +92,12 @@ Fixpoint sync_n (n : nat) (b : bstate) : bstate :=
 Definition dcode (d : bdecision) : list N :=
   match d with BNothing => [0] | BInSync => [1] | BSnapshot => [2] | BRestore r => [3; r] | BSend lo hi => [4; lo; hi] end.
 Definition mk_files (l : list (N * N * N * N)) : list ltxrec := map mk_file l.
-(* case: database exists, local position, local files, service position; observed: decision code ++ [service txid; service chk; local txid; local chk; hwm] after the sync *)
+(* case: database exists, local position, local files, service position; observed: [outcome; service txid; service chk; local txid; local chk; hwm] after the sync *)
 Definition ocode_b (o : boutcome) : N := match o with ONothing => 0 | OInSync => 1 | OUploaded => 2 | ORestored => 3 | OFailed => 4 end.
 Definition sync_obs (ex : bool) (lpos : pos) (files : list (N * N * N * N)) (spos : pos) (hwm0 : N) : list N :=
   let b := {| b_exists := ex; b_lpos := lpos; b_dir := mk_files files; b_svc := {| s_pos := spos; s_files := [] |}; b_hwm := hwm0 |} in
   let '(b', o) := sync b in
-  dcode (backup_decide ex lpos (mk_files files) spos) ++ [ocode_b o; fst (s_pos (b_svc b')); snd (s_pos (b_svc b')); fst (b_lpos b'); snd (b_lpos b'); b_hwm b'].
+  [ocode_b o; fst (s_pos (b_svc b')); snd (s_pos (b_svc b')); fst (b_lpos b'); snd (b_lpos b'); b_hwm b'].
 Definition mismatches_backup (cases : list (bool * pos * list (N * N * N * N) * pos * N * list N)) : list nat :=
   let fix go (i : nat) (cs : list (bool * pos * list (N * N * N * N) * pos * N * list N)) : list nat :=
     match cs with
